@@ -1119,6 +1119,25 @@ impl NameResolution {
         hir_table: &mut HirTable,
     ) -> hir::PatId {
         match pat {
+            // A bare identifier that names a variant of an enum of this package is that
+            // constructor. Lowering only knows the enums of the file it lowers, so a variant
+            // declared in another file of the package arrives here as a variable pattern.
+            ast::Pat::PVar { name, astptr }
+                if ctx
+                    .constructor_index
+                    .has_variant(ctx.current_package, &name.0) =>
+            {
+                let path = ast::Path::from_ident(name.clone());
+                let constructor = self.normalize_constructor_path(&path, ctx);
+                self.alloc_pat_with_ptr(
+                    hir_table,
+                    *astptr,
+                    hir::Pat::PConstr {
+                        constructor: hir::ConstructorRef::Unresolved(constructor),
+                        args: Vec::new(),
+                    },
+                )
+            }
             ast::Pat::PVar { name, astptr } => {
                 let newname = self.fresh_name(&name.0, hir_table);
                 env.add(name, newname);
